@@ -224,80 +224,103 @@ def shape_of(sp):
 # build the sigpy operator
 
 
+CONTAINERS = ("list", "list", "tuple", "npint")
+_CT = ["list"]
+
+
+def set_container(kind):
+    """How shape / axes / shift / factor arguments are handed to the constructors by build(): Python list, tuple,
+    or a list of numpy.int64 (what shape arithmetic with numpy produces). All three are 'tuple of ints' for a caller."""
+    _CT[0] = kind or "list"
+
+
+def _c(v):
+    if v is None or not isinstance(v, (list, tuple)):
+        return v
+    if any(not isinstance(e, (int, np.integer)) or isinstance(e, bool) for e in v):
+        return v
+    k = _CT[0]
+    if k == "tuple":
+        return tuple(int(e) for e in v)
+    if k == "npint":
+        return [np.int64(e) for e in v]
+    return list(v)
+
+
 def build(sp):
     import sigpy
     L = sigpy.linop
     op = sp["op"]
     if op == "Identity":
-        return L.Identity(sp["shape"])
+        return L.Identity(_c(sp["shape"]))
     if op == "Reshape":
-        return L.Reshape(sp["oshape"], sp["ishape"])
+        return L.Reshape(_c(sp["oshape"]), _c(sp["ishape"]))
     if op == "Transpose":
-        return L.Transpose(sp["ishape"], axes=sp["axes"])
+        return L.Transpose(_c(sp["ishape"]), axes=_c(sp["axes"]))
     if op == "FFT":
-        return L.FFT(sp["shape"], axes=sp["axes"], center=sp["center"])
+        return L.FFT(_c(sp["shape"]), axes=_c(sp["axes"]), center=sp["center"])
     if op == "IFFT":
-        return L.IFFT(sp["shape"], axes=sp["axes"], center=sp["center"])
+        return L.IFFT(_c(sp["shape"]), axes=_c(sp["axes"]), center=sp["center"])
     if op == "Multiply":
         m = sp["mult"]
         mult = cplx(m["scalar"]) if "scalar" in m else A.arr(m)
-        return L.Multiply(sp["ishape"], mult, conj=sp["conj"])
+        return L.Multiply(_c(sp["ishape"]), mult, conj=sp["conj"])
     if op == "MatMul":
-        return L.MatMul(sp["ishape"], A.arr(sp["mat"]), adjoint=sp["adjoint"])
+        return L.MatMul(_c(sp["ishape"]), A.arr(sp["mat"]), adjoint=sp["adjoint"])
     if op == "RightMatMul":
-        return L.RightMatMul(sp["ishape"], A.arr(sp["mat"]), adjoint=sp["adjoint"])
+        return L.RightMatMul(_c(sp["ishape"]), A.arr(sp["mat"]), adjoint=sp["adjoint"])
     if op == "Resize":
-        return L.Resize(sp["oshape"], sp["ishape"], ishift=sp["ishift"], oshift=sp["oshift"])
+        return L.Resize(_c(sp["oshape"]), _c(sp["ishape"]), ishift=_c(sp["ishift"]), oshift=_c(sp["oshift"]))
     if op == "Flip":
-        return L.Flip(sp["shape"], axes=sp["axes"])
+        return L.Flip(_c(sp["shape"]), axes=_c(sp["axes"]))
     if op == "Circshift":
-        return L.Circshift(sp["shape"], sp["shift"], axes=sp["axes"])
+        return L.Circshift(_c(sp["shape"]), _c(sp["shift"]), axes=_c(sp["axes"]))
     if op == "Downsample":
-        return L.Downsample(sp["ishape"], sp["factors"], shift=sp["shift"])
+        return L.Downsample(_c(sp["ishape"]), _c(sp["factors"]), shift=_c(sp["shift"]))
     if op == "Upsample":
-        return L.Upsample(sp["oshape"], sp["factors"], shift=sp["shift"])
+        return L.Upsample(_c(sp["oshape"]), _c(sp["factors"]), shift=_c(sp["shift"]))
     if op == "Sum":
-        return L.Sum(sp["ishape"], sp["axes"])
+        return L.Sum(_c(sp["ishape"]), _c(sp["axes"]))
     if op == "Tile":
-        return L.Tile(sp["oshape"], sp["axes"])
+        return L.Tile(_c(sp["oshape"]), _c(sp["axes"]))
     if op == "Slice":
-        return L.Slice(sp["ishape"], idx_of(sp["idx"]))
+        return L.Slice(_c(sp["ishape"]), idx_of(sp["idx"]))
     if op == "Embed":
-        return L.Embed(sp["oshape"], idx_of(sp["idx"]))
+        return L.Embed(_c(sp["oshape"]), idx_of(sp["idx"]))
     if op == "Interpolate":
-        return L.Interpolate(sp["ishape"], A.arr(sp["coord"]), kernel=sp["kernel"], width=sp["width"], param=sp["param"])
+        return L.Interpolate(_c(sp["ishape"]), A.arr(sp["coord"]), kernel=sp["kernel"], width=sp["width"], param=sp["param"])
     if op == "Gridding":
-        return L.Gridding(sp["oshape"], A.arr(sp["coord"]), kernel=sp["kernel"], width=sp["width"], param=sp["param"])
+        return L.Gridding(_c(sp["oshape"]), A.arr(sp["coord"]), kernel=sp["kernel"], width=sp["width"], param=sp["param"])
     if op == "NUFFT":
-        return L.NUFFT(sp["ishape"], A.arr(sp["coord"]), oversamp=sp["oversamp"], width=sp["width"],
+        return L.NUFFT(_c(sp["ishape"]), A.arr(sp["coord"]), oversamp=sp["oversamp"], width=sp["width"],
                        toeplitz=sp.get("toeplitz", False))
     if op == "NUFFTAdjoint":
-        return L.NUFFTAdjoint(sp["oshape"], A.arr(sp["coord"]), oversamp=sp["oversamp"], width=sp["width"])
+        return L.NUFFTAdjoint(_c(sp["oshape"]), A.arr(sp["coord"]), oversamp=sp["oversamp"], width=sp["width"])
     if op == "Wavelet":
         with warnings.catch_warnings():
             warnings.simplefilter("ignore")
-            return L.Wavelet(sp["ishape"], axes=sp["axes"], wave_name=sp["wave"], level=sp["level"])
+            return L.Wavelet(_c(sp["ishape"]), axes=_c(sp["axes"]), wave_name=sp["wave"], level=sp["level"])
     if op == "InverseWavelet":
         with warnings.catch_warnings():
             warnings.simplefilter("ignore")
-            return L.InverseWavelet(sp["oshape"], axes=sp["axes"], wave_name=sp["wave"], level=sp["level"])
+            return L.InverseWavelet(_c(sp["oshape"]), axes=_c(sp["axes"]), wave_name=sp["wave"], level=sp["level"])
     if op == "ArrayToBlocks":
-        return L.ArrayToBlocks(sp["shape"], sp["blk_shape"], sp["blk_strides"])
+        return L.ArrayToBlocks(_c(sp["shape"]), _c(sp["blk_shape"]), _c(sp["blk_strides"]))
     if op == "BlocksToArray":
-        return L.BlocksToArray(sp["shape"], sp["blk_shape"], sp["blk_strides"])
+        return L.BlocksToArray(_c(sp["shape"]), _c(sp["blk_shape"]), _c(sp["blk_strides"]))
     if op in ("ConvolveData", "ConvolveDataAdjoint"):
         cls = getattr(L, op)
-        return cls(sp["data_shape"], A.arr(sp["filt"]), mode=sp["mode"], strides=sp["strides"], multi_channel=sp["mc"])
+        return cls(_c(sp["data_shape"]), A.arr(sp["filt"]), mode=sp["mode"], strides=_c(sp["strides"]), multi_channel=sp["mc"])
     if op in ("ConvolveFilter", "ConvolveFilterAdjoint"):
         cls = getattr(L, op)
-        return cls(sp["filt_shape"], A.arr(sp["data"]), mode=sp["mode"], strides=sp["strides"], multi_channel=sp["mc"])
+        return cls(_c(sp["filt_shape"]), A.arr(sp["data"]), mode=sp["mode"], strides=_c(sp["strides"]), multi_channel=sp["mc"])
     if op == "FiniteDifference":
-        return L.FiniteDifference(sp["ishape"], axes=sp["axes"])
+        return L.FiniteDifference(_c(sp["ishape"]), axes=_c(sp["axes"]))
     if op == "Gradient":
         # deprecated public alias of FiniteDifference
         with warnings.catch_warnings():
             warnings.simplefilter("ignore")
-            return L.Gradient(sp["ishape"], axes=sp["axes"])
+            return L.Gradient(_c(sp["ishape"]), axes=_c(sp["axes"]))
     if op == "ToDevice":
         return L.ToDevice(sp["shape"], sigpy.cpu_device, sigpy.cpu_device)
     if op in ("AllReduce", "AllReduceAdjoint"):
@@ -1335,7 +1358,7 @@ def st_tree(draw, max_depth=2, dtypes=("complex128", "complex128", "complex64"),
     o, i = shape_of(sp)
     if prod(o) > MAX_OUT * 2 or prod(i) > MAX_IN * 2:
         sp = leaf_for(draw, s, dt, only=first)
-    return {"tree": sp, "dtype": dt}
+    return {"tree": sp, "dtype": dt, "ct": draw(st.sampled_from(CONTAINERS))}
 
 
 def children(sp):
